@@ -30,7 +30,8 @@ def exec_may_raise(node, frame, path):
         return ['NoSuchSlaveException']
     if isinstance(node, ast.Call) and isinstance(node.func, ast.Attribute) and node.func.attr == 'execute' \
             and U(node.func.value) == 'request':
-        return ['AnyException']
+        # what a datastore may throw: "some Exception" plus the concrete classes a handler could single out
+        return ['AnyException', 'KeyError', 'IndexError', 'ValueError', 'OSError']
     return []
 
 
@@ -38,6 +39,8 @@ class FrontPath:
     def __init__(self):
         self.flags = {}          # 'broadcast_enable','unit0','ignore_missing' -> polarity
         self.handler = None      # exception class handled (None = normal)
+        self.raised = None       # exception class raised
+        self.raise_site = None   # 'execute' (the datastore) | 'context' (unit lookup)
         self.response = None     # substituted expr of the message handed to send
         self.response_kind = None   # 'execute' | ('exception', code) | None
         self.exec_calls = []     # substituted request.execute(...) calls
@@ -91,6 +94,9 @@ def frontend_exec_paths(cx, fe):
                     gate_ok = True
             elif ev.kind == 'handler' and ev.frame.fid == 0:
                 fp.handler = ev.b
+            elif ev.kind == 'raise' and ev.frame.fid == 0:
+                fp.raised = ev.a
+                fp.raise_site = 'execute' if (isinstance(ev.node, ast.Call) and callee_name(ev.node) == 'execute') else 'context'
             elif ev.kind == 'loop' and ev.frame.fid == 0:
                 if ev.a == 'enter':
                     loops.append(ev.node)
